@@ -20,6 +20,20 @@
 (* `held` are pages pre-rendered with render_dependencies=False whose HTML *)
 (* (with its <!-- _RENDERED --> markers) is post-processed later.          *)
 (* `kept` is bookkeeping for one named deviation only (see MC/Trace).      *)
+(*                                                                         *)
+(* `url` is the *URL configuration* that is active in the process: the     *)
+(* script prefix (WSGI SCRIPT_NAME / django.urls.set_script_prefix) and    *)
+(* the URLconf (ROOT_URLCONF, or a per-request request.urlconf /           *)
+(* set_urlconf) with the place where it includes django_components.urls.   *)
+(* It is an opaque value: two different values address the endpoint under  *)
+(* different paths.  It CHANGES between renders of one process (SetUrl): a *)
+(* process reachable under two mount points, multi-tenant URLconfs.  A URL *)
+(* is *addressed to* one configuration; `eloc` is the configuration the    *)
+(* URLs of the last emitting action are addressed to.  The property: what  *)
+(* a render emits is served by a request made under the configuration that *)
+(* was active at that render - so eloc must be that configuration.  A path *)
+(* addressed to another configuration than the active one is not a path of *)
+(* the endpoint (outside the mount point / no such route): 404.            *)
 (***************************************************************************)
 EXTENDS Naturals, Sequences, FiniteSets
 
@@ -63,9 +77,18 @@ Adm(conf, cch, vr, r) ==
 
 GetReq(e) == [c |-> e[1], k |-> e[2], i |-> IF e[3] = "main" THEN "none" ELSE "vars", m |-> "GET"]
 
+(* Requests that also say which URL configuration their path is addressed to *)
+(* (r.at), made while configuration u is active.                            *)
+AdmAt(conf, cch, vr, u, r) == IF r.at # u THEN {NotFound} ELSE Adm(conf, cch, vr, r)
+
 (* ---- the machine --------------------------------------------------------- *)
-VARIABLES conf, cache, ver, held, kept, emitted, resp
-seVars == <<conf, cache, ver, held, kept, emitted, resp>>
+VARIABLES conf, cache, ver, held, kept, emitted, resp, url, eloc
+seVars == <<conf, cache, ver, held, kept, emitted, resp, url, eloc>>
+
+\* script prefix "/" and ROOT_URLCONF = django_components.urls (components/ at the root)
+DefaultUrl == "none/root"
+\* every action but SetUrl: the configuration stays; what is emitted is addressed to it
+UrlKeep == url' = url /\ eloc' = url
 
 \* what an implementation that never overwrites an existing cache entry would hold
 KeepAdd(kp, need, vr) ==
@@ -73,6 +96,7 @@ KeepAdd(kp, need, vr) ==
 
 SEInit(cf) == /\ conf = cf /\ cache = {} /\ ver = [c \in 1..Len(cf) |-> 1]
               /\ held = {} /\ kept = {} /\ emitted = {} /\ resp = NoResp
+              /\ url = DefaultUrl /\ eloc = DefaultUrl
 
 \* Render a page (a set of classes) in document or fragment mode, dependencies included.
 Render(page, mode) ==
@@ -81,6 +105,7 @@ Render(page, mode) ==
   /\ emitted' = Need(conf, page)
   /\ resp' = NoResp
   /\ UNCHANGED <<conf, ver, held>>
+  /\ UrlKeep
 
 \* Render a page with render_dependencies=False and keep the HTML.
 Prerender(page) ==
@@ -89,6 +114,7 @@ Prerender(page) ==
   /\ held' = held \cup {page}
   /\ emitted' = {} /\ resp' = NoResp
   /\ UNCHANGED <<conf, ver>>
+  /\ UrlKeep
 
 \* render_dependencies() on kept HTML.  If an eviction happened in between, the call may
 \* either fail (nothing is emitted) or make the scripts available again - but whatever it
@@ -100,16 +126,19 @@ FinishOk(page, mode) ==
   /\ emitted' = Need(conf, page)
   /\ resp' = NoResp
   /\ UNCHANGED <<conf, ver, held>>
+  /\ UrlKeep
 
 FinishFail(page, mode) ==
   /\ page \in held
   /\ ~(Need(conf, page) \subseteq cache)
   /\ emitted' = {} /\ resp' = NoResp
   /\ UNCHANGED <<conf, cache, ver, held, kept>>
+  /\ UrlKeep
 
 ClearCache ==
   /\ cache' = {} /\ kept' = {} /\ emitted' = {} /\ resp' = NoResp
   /\ UNCHANGED <<conf, ver, held>>
+  /\ UrlKeep
 
 \* A new class object with the same import path (hence the same hash and URL) and new code.
 Redefine(c) ==
@@ -118,14 +147,24 @@ Redefine(c) ==
   /\ held' = {p \in held : c \notin p}
   /\ emitted' = {} /\ resp' = NoResp
   /\ UNCHANGED <<conf, kept>>
+  /\ UrlKeep
+
+\* The active URL configuration changes (another script prefix and / or another URLconf).
+\* Nothing that must be served stops being served under its own configuration.
+SetUrl(u) ==
+  /\ url' = u /\ eloc' = u
+  /\ emitted' = {} /\ resp' = NoResp
+  /\ UNCHANGED <<conf, cache, ver, held, kept>>
 
 Get(r) ==
   /\ resp' \in Adm(conf, cache, ver, r)
   /\ UNCHANGED <<conf, cache, ver, held, kept, emitted>>
+  /\ UrlKeep
 
 (* ---- properties ----------------------------------------------------------- *)
 \* every URL the last render emitted is one the endpoint must serve ...
-EmittedAreServed == emitted \subseteq cache
+\* ... addressed to the configuration that is active (no SetUrl since that render)
+EmittedAreServed == emitted \subseteq cache /\ (emitted # {} => eloc = url)
 \* ... and "must serve" determines one answer: 200 with that class's current code
 MustServeDetermined ==
   \A e \in cache : Adm(conf, cache, ver, GetReq(e)) = {Served(e, ver[e[1]])}
@@ -138,7 +177,7 @@ AnswersSane(reqs) ==
      /\ (r.m # "GET" => a.st \in {404, 405})
      /\ (~Exists(conf, r) => a.st # 200)
 \* a render re-establishes the obligation whatever preceded it (clears, other renders)
-RenderRecaches == [][emitted' # {} => emitted' \subseteq cache']_seVars
+RenderRecaches == [][emitted' # {} => emitted' \subseteq cache' /\ eloc' = url']_seVars
 \* only a clear or a redefinition ends an obligation
 OnlyClearDrops == [][cache \subseteq cache' \/ cache' = {} \/ ver' # ver]_seVars
 =============================================================================
